@@ -127,6 +127,25 @@ def t_sel_linked():
     return g, dict(sel=[c1, c2, c3])
 
 
+def t_sel_forced_linked():
+    """two linked selection choices (the second one is forced: it gets no design variable) followed by independent ones;
+    the index of a design variable then differs from the index of its selection choice"""
+    B, N, CN, G, DV, M, CCT = _imp()
+    g = B()
+    r = N('R')
+    a = [N('A0'), N('A1')]
+    x = [N('X0'), N('X1')]
+    y = [N('Y0'), N('Y1'), N('Y2')]
+    z = [N('Z0'), N('Z1')]
+    c1 = g.add_selection_choice('C1', r, a)
+    c2 = g.add_selection_choice('C2', r, x)
+    c3 = g.add_selection_choice('C3', r, y)
+    c4 = g.add_selection_choice('C4', y[1], z)
+    g = g.set_start_nodes({r})
+    g = g.constrain_choices(CCT.LINKED, [c1, c2])
+    return g, dict(sel=[c1, c2, c3, c4])
+
+
 def t_conn_simple():
     B, N, CN, *_ = _imp()
     g = B()
@@ -289,7 +308,7 @@ def t_conn_dv():
 
 TEMPLATES = {
     'two_indep': t_two_indep, 'nested': t_nested, 'nested3': t_nested3, 'incompat': t_incompat, 'forced': t_forced,
-    'dv': t_dv, 'dv_single': t_dv_single, 'dv_linked': t_dv_linked, 'sel_linked': t_sel_linked,
+    'dv': t_dv, 'dv_single': t_dv_single, 'dv_linked': t_dv_linked, 'sel_linked': t_sel_linked, 'sel_forced_linked': t_sel_forced_linked,
     'conn_simple': t_conn_simple, 'conn_cond': t_conn_cond, 'conn_opt_src': t_conn_opt_src,
     'conn_infeasible_scenario': t_conn_infeasible_scenario, 'conn_group': t_conn_group,
     'conn_group_finite': t_conn_group_finite, 'conn_group_open': t_conn_group_open, 'conn_group_open2': t_conn_group_open2, 'conn_excl': t_conn_excl, 'conn_two': t_conn_two, 'conn_dv': t_conn_dv,
